@@ -107,8 +107,16 @@ def run(ctx):
     # the digit bound guards EVERY accepted numeral with a fractional part: each success exit reachable after the
     # fractional part was parsed is dominated by the success edge of the bound check (no early return around it)
     if pmax is not None and lens:
+        def shape(v):
+            """value without the block numbers of its calls: two reads of the same element compare equal"""
+            if isinstance(v, tuple):
+                if v and v[0] == "call":
+                    return ("call", v[3], tuple(shape(x) for x in v[4]))
+                return tuple(shape(x) for x in v)
+            return v
+
         def same_elem(a, b_):
-            return a[0] == "call" and b_[0] == "call" and a[3] == b_[3] and a[4] == b_[4]
+            return shape(a) == shape(b_)
         frac_elem = lens[0][4][0]
         fparses = [(b, v) for b, v in calls_named(P, pars, "from_dec_str") if same_elem(v[4][0], frac_elem)]
 
@@ -206,7 +214,23 @@ def run(ctx):
         pv = parses[0][1]
         PR = "C:%s@%s:bb%d" % (generic_path(pv[3]), vf.path, pv[2])
         good = True
-        for (b, i, cls, v) in common.exit_sites(P, vf):
+        exits_v = common.exit_sites(P, vf)
+        if len(exits_v) == 1 and isinstance(exits_v[0][2], tuple) and exits_v[0][2][0] == "forward":
+            # combinator form: parse(v).map(Ctor).map_err(..) returned as is — Ok exactly when the parser returned Ok, with that value
+            x = exits_v[0][3]
+            okc = not lemmas.cond_strings(ctx, common.control_conditions(P, vf, exits_v[0][0]))
+            while okc and x[0] == "call" and isinstance(x[3], str) and common.last_seg(x[3]) in ("map_err", "map") and "result::Result" in x[3]:
+                if common.last_seg(x[3]) == "map":
+                    fn_arg = x[4][1]
+                    okc = fn_arg[0] == "const" and fn_arg[1] == "fn" and fn_arg[2] == ty      # the tuple constructor of the type itself
+                x = x[4][0]
+            if okc and x == pv:
+                t2.site("%sVisitor::visit_str == %s(v)[.map(%s)].map_err(..) (Ok => that value, Err => error; no other condition)" % (short, parse_callee, short))
+            else:
+                t2.fail("C18.T2:visitor-chain:%s" % short, vf.path, vf.span, "visitor forwards %s, which is not the parser's result mapped only by the type's constructor / map_err: unrecognised-idiom" % ctx.show(exits_v[0][3], 4)[:200])
+            exits_v = []
+            good = False
+        for (b, i, cls, v) in exits_v:
             cs_ = lemmas.cond_strings(ctx, common.control_conditions(P, vf, b))
             want = {"discr(%s) in ['%s']" % (PR, "Ok" if cls == "ok" else "Err")}
             if cs_ != want:
